@@ -9,6 +9,7 @@ Enumerated: unit pairs of one dimension (core family incl. prefixes), operand ki
 
 from __future__ import annotations
 
+import itertools
 from fractions import Fraction
 from typing import Any, Dict, List, Tuple
 
@@ -91,6 +92,7 @@ def quantity_task(acc: work.Acc, uc: str, vc: str, kinds: Dict[str, str]) -> Non
     U, V = eval(uc, n), eval(vc, n)
     orc = families.orc()
     affine = None
+    same_computation = False
     if any(f in orc.offset_units for f in list(U.factors) + list(V.factors)) or \
             U in orc.offset_units or V in orc.offset_units:
         from props import c10
@@ -118,6 +120,17 @@ def quantity_task(acc: work.Acc, uc: str, vc: str, kinds: Dict[str, str]) -> Non
 
             cv = convterm.convert(U, V, "float")
             acc.out["paths"] += cv.paths
+            if cv.outcome != "ok":
+                same_computation = True
+                # the planner finds U -> V in one direction only (a C07 matter, not a C12 one):
+                # comparisons then go through the reflected operand; judge them by the factor of
+                # the direction that exists
+                rv = convterm.convert(V, U, "float")
+                acc.out["paths"] += rv.paths
+                if rv.outcome == "ok" and rv.d == 0 and rv.c != 0:
+                    cv = convterm.Conv()
+                    cv.outcome, cv.c, cv.d, cv.unit_ok = "ok", 1 / rv.c, Fraction(0), True
+                    acc.count("pairs_convertible_in_one_direction_only")
             tol4 = Fraction(1, 10 ** 5) * orc.degree(U, V)
             ok4 = cv.outcome == "ok" and cv.d == 0 and abs(cv.c - rho) <= tol4 * abs(rho)
             acc.ob("unsat" if ok4 else "sat", f"quantity/{uc}/{vc}:library factor agrees with the oracle (C04 tolerance)",
@@ -134,6 +147,8 @@ def quantity_task(acc: work.Acc, uc: str, vc: str, kinds: Dict[str, str]) -> Non
                 return
             rho = cv.c
     exact_same = U is V
+    if affine is not None or exact_same:
+        same_computation = False
 
     def build(v: Dict[str, Any]) -> Dict[str, Any]:
         a, b = v["x"] * U, v["y"] * V
@@ -170,6 +185,11 @@ obs = dict(eq_aa=(a == a), eq_ab=(a == b), eq_ba=(b == a), ne_ab=(a != b), lt_ab
            le_ab=(a <= b), gt_ab=(a > b), ge_ab=(a >= b), lt_ba=(b < a), le_ba=(b <= a),
            gt_ba=(b > a), ge_ba=(b >= a))
 print(a, b, obs)
+ONE_WAY = {same_computation!r}    # the planner converts between U and V in one direction only
+if ONE_WAY and (bool(obs['eq_ab']) != bool(obs['eq_ba']) or bool(obs['lt_ab']) != bool(obs['gt_ba'])
+                or bool(obs['gt_ab']) != bool(obs['lt_ba']) or bool(obs['ne_ab']) == bool(obs['eq_ab'])
+                or (bool(obs['lt_ab']) + bool(obs['eq_ab']) + bool(obs['gt_ab'])) != 1):
+    print('REPRODUCED: == / < / > are not coherent between the two operand orders'); sys.exit(1)
 tie = abs(X - Y) <= 1e-7 * (abs(X) + abs(Y) + (1 if AFF else 0))
 if tie and not (X == Y and U is V):
     print('tie zone: nothing required'); sys.exit(0)
@@ -212,6 +232,13 @@ sys.exit(0)
                 z3.Not(o["lt_ab"]), z3.Not(o["gt_ab"]), z3.Not(o["ne_ab"])))
             goals["symmetric"] = o["eq_ab"] == o["eq_ba"]
             goals["mirror"] = z3.And(o["le_ab"] == o["ge_ba"], o["ge_ab"] == o["le_ba"])
+        if same_computation:
+            # only one direction converts: a == b and b == a, a < b and b > a, ... are decided by
+            # one and the same conversion, so they must agree exactly, ties included
+            goals["symmetric"] = z3.And(o["eq_ab"] == o["eq_ba"], o["ne_ab"] == z3.Not(o["eq_ba"]))
+            goals["mirror"] = z3.And(o["lt_ab"] == o["gt_ba"], o["gt_ab"] == o["lt_ba"],
+                                     o["le_ab"] == o["ge_ba"], o["ge_ab"] == o["le_ba"])
+            goals["trichotomy"] = z3.PbEq([(o["lt_ab"], 1), (o["eq_ab"], 1), (o["gt_ab"], 1)], 1)
         for g, goal in goals.items():
             acc.prove(case, p, goal, f"{cfg}#p{i}:{g}", key, f"C12:quantity:{uc}|{vc}:{g}",
                       f"{g} fails for {cfg}", replay(g))
@@ -567,8 +594,37 @@ def worker(task: Tuple) -> Dict[str, Any]:
     return acc.finish()
 
 
+def one_way_pairs(limit: int) -> List[Tuple[str, str]]:
+    """Named units of one dimension between which the planner converts in one direction only
+    (found by asking the real planner for every ordered pair): both operand orders of each."""
+    import measured
+    from measured import conversions
+
+    families.boot()
+    units = families.offset_free(families.named_units())
+    out: List[Tuple[str, str]] = []
+    for dim, us in families.by_dimension(units).items():
+        for a, b in itertools.combinations(us, 2):
+            res = []
+            for s_, d_ in ((a, b), (b, a)):
+                try:
+                    (1 * s_).in_unit(d_)
+                    res.append(True)
+                except conversions.ConversionNotFound:
+                    res.append(False)
+                except Exception:
+                    res.append(None)
+            if sorted(map(str, res)) == ["False", "True"]:
+                out.append((families.code(a), families.code(b)))
+                out.append((families.code(b), families.code(a)))
+                if len(out) >= limit:
+                    return out
+    return out
+
+
 def tasks_for(tier: str) -> List[Tuple]:
     pairs = PAIRS_QUICK if tier == "quick" else PAIRS_THOROUGH
+    pairs = pairs + one_way_pairs(4 if tier == "quick" else 24)
     kq = [("float", "float"), ("int", "float"), ("dec", "dec")]
     if tier == "thorough":
         kq += [("int", "int"), ("float", "int"), ("dec", "int")]
